@@ -417,6 +417,9 @@ def run(ctx: Ctx):
     r_material_props(ctx, model, I)
     n = r_factor(ctx, model, I, t, o)
     ctx.floor("abstract converter calls", n, 1500)
+    # the adsorbate quantities entering the factors are those AT THE STATED TEMPERATURE, whatever the shared backend state was asked before
+    from .C20 import r_getter_history
+    r_getter_history(ctx, model, prop="C01", rule="R-adsorbate")
 
 
 META = {
